@@ -13,6 +13,7 @@
    model: reaching them ends the model run with `Unsupp` (counted, never compared). *)
 From Coq Require Import ZArith List Bool SpecFloat.
 Require Import NS.theories.F64 NS.theories.StrLib.
+Require NS.theories.NumParse NS.theories.CaseMap.
 Import ListNotations.
 Open Scope Z_scope.
 
@@ -669,11 +670,11 @@ Fixpoint eval (n : nat) (e : expr) (s : st) {struct n} : M (value * st) :=
                 | _ => PanicM PArgIndex
                 end
               else if bytes_eqb f n_to_uppercase then
-                if is_ascii str then OkM (VStr (ascii_upper str), s1) else UnsuppM
+                OkM (VStr (CaseMap.to_upper str), s1)
               else if bytes_eqb f n_to_lowercase then
-                if is_ascii str then OkM (VStr (ascii_lower str), s1) else UnsuppM
+                OkM (VStr (CaseMap.to_lower str), s1)
               else if bytes_eqb f n_trim then OkM (VStr (trim str), s1)
-              else if bytes_eqb f n_to_number then UnsuppM
+              else if bytes_eqb f n_to_number then OkM (VNum (NumParse.to_number str), s1)
               else if bytes_eqb f n_find then
                 match args with
                 | a0 :: _ =>
